@@ -163,6 +163,12 @@ class AsyncIOClient(ABC):
         if self._state == State.CLOSED:
             self.logger.info("Object terminated. Cannot connect.")
             return
+
+        if self._receive_task is not None and self._receive_task is asyncio.current_task():
+            # called from a status callback that the receive task is running (after a fault): that task
+            # reconnects by itself as soon as the callback returns, and it cannot cancel itself
+            self.logger.info("connect called from the receive task, it reconnects by itself")
+            return
         
         if self.lock.locked():
             self.logger.info("connect is already running")
